@@ -88,4 +88,28 @@ def jobs(tier, seed):
                          unwind=180, leak=True, case={"k": k, "m": m, "w": w, "len": ln, "num_fragments": nfv}, object_bits=10,
                          loop_bounds=[(r"num_fragments", k + m + 3), (r"missing_idxs\[\w+\]\s*>", k + m + 2), (r"i < k;", k + 1), (r"i < m;", m + 1)],
                          expect=["C15: the caller's fragments are not written"], assumptions=A_FE, timeout=1800, mem_gb=10, weight=(k + m) ** 3))
+    # ---- enforcing queries for the internal contracts, and the 'encoded => valid' lemma
+    csl = [(2, 1, 16, 5), (3, 2, 16, 7)] if tier == "quick" else [(1, 1, 16, 3), (2, 1, 16, 5), (3, 2, 16, 7), (2, 2, 32, 9), (4, 2, 16, 9)]
+    for (k, m, w, ln) in csl:
+        tag = "%d_%d_w%d_len%d" % (k, m, w, ln)
+        n = k + m
+        for mode, fn in ((1, "fragments_to_string"), (2, "get_fragment_partition"), (3, "prepare_fragments_for_decode")):
+            for nfv in (sorted({0, k - 1, k, n, n + 1}) if mode != 3 else sorted({k, n, n + 1})):
+                J.append(Job("fe.contract.%s@%s_nf%d" % (fn, tag, nfv), group="fe.contract." + fn, props=["C01", "C02", "C03", "C15", "C16"] + (["C09"] if mode == 2 else []),
+                             layer="L4", strength="B", bound=bound + "; num_fragments per case",
+                             title="%s: real body == contract text of fe_contracts.h on the same symbolic pre-state (return code, outputs, ownership, inputs untouched)" % fn,
+                             functions=[fn, "get_fragment_idx", "get_fragment_payload_size", "get_orig_data_size", "get_aligned_buffer16", "alloc_fragment_buffer", "convert_list_to_bitmap"],
+                             replaced=["malloc/posix_memalign/memcpy/memset (CBMC models)"],
+                             repo_src=[PRE, HELP], harness=["harness/fe_contract.c", "harness/stub_env.c"],
+                             defines={"K": k, "M": m, "W": w, "LEN": ln, "MODE": mode, "NUMFRAG": "(%d)" % nfv}, unwind=180,
+                             loop_bounds=[(r"num_fragments", n + 3), (r"num_data", k + 1)], leak=(mode == 1), object_bits=10,
+                             case={"k": k, "m": m, "w": w, "len": ln, "num_fragments": nfv}, expect=[fn + ":"], timeout=1200, mem_gb=8))
+    for (k, m, w, ln) in [(2, 1, 16, 5), (3, 2, 16, 7), (2, 2, 32, 9)]:
+        tag = "%d_%d_w%d_len%d" % (k, m, w, ln)
+        J.append(Job("fe.lemma.encoded_valid@" + tag, group="fe.lemma.encoded_valid", props=["C09", "C10", "C12", "C01"], layer="L5", strength="B", bound=bound,
+                     title="lemma: any fragment satisfying encode's postcondition is accepted by the real header check, the real metadata query (no mismatch, either CRC variant) and the real per-fragment validation",
+                     functions=["is_invalid_fragment_header", "liberasurecode_get_fragment_metadata", "is_invalid_fragment", "is_invalid_fragment_metadata", "liberasurecode_verify_fragment_metadata"],
+                     replaced=["registry lookup (contract)", "ops->is_compatible_with (interface contract)", "crc32 / crc32_alt (uninterpreted)"],
+                     repo_src=[EC, HELP], remove_bodies=CUT, harness=["harness/fe_contract.c"] + FE_H, defines={"K": k, "M": m, "W": w, "LEN": ln, "MODE": 4, "NUMFRAG": "0"},
+                     unwind=180, case={"k": k, "m": m, "w": w, "len": ln}, expect=["C12: every fragment an instance has just encoded"], assumptions=A_FE))
     return J
